@@ -97,7 +97,7 @@ def run_case(case, tier):
             for k in sorted(want):
                 d = si.tus[k]["displayed"]
                 if d["show_existing_frame"] or d["frame_type"] != ap.KEY_FRAME or d["refresh_frame_flags"] != 0xFF:
-                    viol.append(dict(key="C19|idr-not-shown-key", what="position %d: IDR refresh expects a shown KEY_FRAME refreshing all slots, got type %d show_existing %d refresh %#x" % (
+                    viol.append(dict(key="C19|idr-not-shown-key|" + ("P0" if c["intra_period_length"] == 0 else "P>0"), what="position %d: IDR refresh expects a shown KEY_FRAME refreshing all slots, got type %d show_existing %d refresh %#x" % (
                         k, d["frame_type"], d["show_existing_frame"], d.get("refresh_frame_flags", 0))))
                     break
         cuts = 0
